@@ -195,17 +195,19 @@ func reach(fn *ssa.Function, start ssa.Instruction, c cut, visit func(ssa.Instru
 	if len(fn.Blocks) == 0 {
 		return
 	}
-	seen := map[*ssa.BasicBlock]bool{}
+	type key struct{ b, pred *ssa.BasicBlock }
+	seen := map[key]bool{}
 	type item struct {
-		b *ssa.BasicBlock
-		i int
+		b    *ssa.BasicBlock
+		i    int
+		pred *ssa.BasicBlock // the block control came from (nil: unknown)
 	}
 	var work []item
 	if start == nil {
-		work = append(work, item{fn.Blocks[0], 0})
-		seen[fn.Blocks[0]] = true
+		work = append(work, item{fn.Blocks[0], 0, nil})
+		seen[key{fn.Blocks[0], nil}] = true
 	} else {
-		work = append(work, item{start.Block(), idxOf(start) + 1})
+		work = append(work, item{start.Block(), idxOf(start) + 1, nil})
 	}
 	// Recover block is an implicit successor of every panic/exit once defers run; ignore.
 	for len(work) > 0 {
@@ -226,16 +228,182 @@ func reach(fn *ssa.Function, start ssa.Instruction, c cut, visit func(ssa.Instru
 		if blocked {
 			continue
 		}
+		forced := -1
+		if it.pred != nil {
+			forced = decidedBranch(b, it.pred)
+		}
 		for si, s := range b.Succs {
-			if c.edges[edge{b, si}] {
+			if c.edges[edge{b, si}] || (forced >= 0 && si != forced) {
 				continue
 			}
-			if !seen[s] {
-				seen[s] = true
-				work = append(work, item{s, 0})
+			k := key{s, nil}
+			if predSensitive(s) {
+				k.pred = b
+			}
+			if !seen[k] {
+				seen[k] = true
+				work = append(work, item{s, 0, b})
 			}
 		}
 	}
+}
+
+// Constant-φ jump threading.  When a block branches on a φ defined in that
+// very block (a flag, or the result temporary of an expanded helper) and the
+// value arriving from the predecessor just taken is a constant, only one
+// successor is feasible.  reach follows only that one, which makes every
+// path-based rule insensitive to "early return" versus "set a flag, test it
+// later" versions of the same control flow.  (Sound: only infeasible paths
+// are pruned.)
+var predSensCache = map[*ssa.BasicBlock]int8{}
+
+func predSensitive(b *ssa.BasicBlock) bool {
+	if v, ok := predSensCache[b]; ok {
+		return v == 1
+	}
+	r := int8(0)
+	if ph, _, _ := branchPhi(b); ph != nil {
+		r = 1
+	}
+	predSensCache[b] = r
+	return r == 1
+}
+
+// branchPhi: b ends in `if φ`, `if !φ`, `if φ == const` or `if φ != const` with φ defined in b.
+func branchPhi(b *ssa.BasicBlock) (ph *ssa.Phi, cmp *ssa.Const, neq bool) {
+	i, ok := lastInstr(b).(*ssa.If)
+	if !ok {
+		return nil, nil, false
+	}
+	v, _ := stripNot(i.Cond)
+	if p, ok := v.(*ssa.Phi); ok && p.Block() == b {
+		return p, nil, false
+	}
+	if bo, ok := v.(*ssa.BinOp); ok && (bo.Op == token.EQL || bo.Op == token.NEQ) {
+		for _, pr := range [][2]ssa.Value{{bo.X, bo.Y}, {bo.Y, bo.X}} {
+			p, isP := pr[0].(*ssa.Phi)
+			c, isC := pr[1].(*ssa.Const)
+			if isP && isC && p.Block() == b {
+				return p, c, bo.Op == token.NEQ
+			}
+		}
+	}
+	return nil, nil, false
+}
+
+// decidedBranch returns the only feasible successor index of b when entered from pred, or -1.
+func decidedBranch(b, pred *ssa.BasicBlock) int {
+	if !predSensitive(b) {
+		return -1
+	}
+	ph, cmp, neq := branchPhi(b)
+	k := -1
+	for i, p := range b.Preds {
+		if p == pred {
+			if k >= 0 {
+				return -1 // both outcomes of pred's branch arrive here
+			}
+			k = i
+		}
+	}
+	if k < 0 {
+		return -1
+	}
+	in, ok := ph.Edges[k].(*ssa.Const)
+	if !ok {
+		// a value that is certainly not nil compared with nil
+		if cmp != nil && cmp.Value == nil && certainlyNonNil(ph.Edges[k]) {
+			_, flip := stripNot(lastInstr(b).(*ssa.If).Cond)
+			truth := neq // φ != nil
+			if truth != flip {
+				return 0
+			}
+			return 1
+		}
+		return -1
+	}
+	_, flip := stripNot(lastInstr(b).(*ssa.If).Cond)
+	var truth bool
+	switch {
+	case cmp == nil:
+		if in.Value == nil || in.Value.Kind() != constant.Bool {
+			return -1
+		}
+		truth = constant.BoolVal(in.Value)
+	case cmp.Value == nil || in.Value == nil:
+		if !(cmp.Value == nil && in.Value == nil) {
+			return -1
+		}
+		truth = !neq
+	default:
+		if cmp.Value.Kind() != in.Value.Kind() || cmp.Value.Kind() == constant.Unknown {
+			return -1
+		}
+		truth = constant.Compare(in.Value, token.EQL, cmp.Value) != neq
+	}
+	if truth != flip {
+		return 0
+	}
+	return 1
+}
+
+func certainlyNonNil(v ssa.Value) bool {
+	switch t := v.(type) {
+	case *ssa.Alloc, *ssa.MakeMap, *ssa.MakeSlice, *ssa.MakeChan, *ssa.MakeClosure, *ssa.MakeInterface, *ssa.FieldAddr, *ssa.IndexAddr, *ssa.Function, *ssa.Global:
+		return true
+	case *ssa.Call:
+		switch calleeName(&t.Call) {
+		case "fmt.Errorf", "errors.New":
+			return true
+		}
+		if f := t.Call.StaticCallee(); f != nil && f.Signature.Results().Len() == 1 {
+			return alwaysNonNilResult(f, 0)
+		}
+	}
+	return false
+}
+
+var nonNilMemo = map[*ssa.Function]int8{}
+
+// alwaysNonNilResult: every return of the module function f yields a value that is certainly not nil
+// (error constructors such as Dispenser.Errf / ArgErr).
+func alwaysNonNilResult(f *ssa.Function, depth int) bool {
+	if v, ok := nonNilMemo[f]; ok {
+		return v == 1
+	}
+	if len(f.Blocks) == 0 || depth > 4 {
+		return false
+	}
+	nonNilMemo[f] = 0 // recursion: assume not
+	ok := true
+	n := 0
+	for _, rt := range realReturns(f) {
+		res := retResults(rt)
+		if len(res) != 1 {
+			ok = false
+			break
+		}
+		n++
+		switch t := res[0].(type) {
+		case *ssa.Call:
+			switch calleeName(&t.Call) {
+			case "fmt.Errorf", "errors.New":
+				continue
+			}
+			if g := t.Call.StaticCallee(); g != nil && g.Signature.Results().Len() == 1 && alwaysNonNilResult(g, depth+1) {
+				continue
+			}
+			ok = false
+		case *ssa.MakeInterface:
+		default:
+			ok = false
+		}
+	}
+	if ok && n > 0 {
+		nonNilMemo[f] = 1
+		return true
+	}
+	return false
 }
 
 // canReach: is target reachable from start (nil=entry) avoiding the cut?
@@ -1386,4 +1554,150 @@ func paramRoot(v ssa.Value) (*ssa.Parameter, bool) {
 		}
 	}
 	return nil, false
+}
+
+// ---------------------------------------------------------------------------
+// Form-independent guard reasoning (robust against inverted conditions,
+// early returns and if/switch rewrites)
+
+// phiEdgeGuards: the guard atoms that hold whenever control enters ph's block
+// through its k-th predecessor: the guards dominating that predecessor's
+// terminator plus, if the predecessor ends in a conditional branch, the
+// outcome that leads to ph's block.
+func phiEdgeGuards(fn *ssa.Function, ph *ssa.Phi, k int) []guardInfo {
+	pred := ph.Block().Preds[k]
+	t := lastInstr(pred)
+	if t == nil {
+		return nil
+	}
+	out := guardAtoms(fn, nil, t)
+	if i, ok := t.(*ssa.If); ok && pred.Succs[0] != pred.Succs[1] {
+		takeTrue := pred.Succs[0] == ph.Block()
+		v, flip := stripNot(i.Cond)
+		for _, a := range conjAtoms(fn, v, takeTrue != flip, 0) {
+			if a.If == nil {
+				a.If = i
+			}
+			out = append(out, a)
+		}
+	}
+	return out
+}
+
+// atomIntBounds interprets a guard atom as a constraint on an integer value:
+// when the atom holds, lo <= x <= hi (each bound optional).
+func atomIntBounds(a guardInfo) (x ssa.Value, lo, hi int64, hasLo, hasHi, ok bool) {
+	x, kind, c, isCmp := intCmp(a.Cond)
+	if !isCmp {
+		return nil, 0, 0, false, false, false
+	}
+	switch kind {
+	case "gt": // x > c
+		if a.Pos {
+			return x, c + 1, 0, true, false, true
+		}
+		return x, 0, c, false, true, true
+	case "lt": // x < c
+		if a.Pos {
+			return x, 0, c - 1, false, true, true
+		}
+		return x, c, 0, true, false, true
+	case "eq":
+		if a.Pos {
+			return x, c, c, true, true, true
+		}
+	case "ne":
+		if !a.Pos {
+			return x, c, c, true, true, true
+		}
+	}
+	return nil, 0, 0, false, false, false
+}
+
+// guardsImplyAtLeast / AtMost: some atom on a value satisfying pred bounds it from below / above.
+func guardsImplyAtLeast(gs []guardInfo, pred func(ssa.Value) bool, n int64) bool {
+	for _, g := range gs {
+		if x, lo, _, hasLo, _, ok := atomIntBounds(g); ok && hasLo && lo >= n && pred(x) {
+			return true
+		}
+	}
+	return false
+}
+
+func guardsImplyAtMost(gs []guardInfo, pred func(ssa.Value) bool, n int64) bool {
+	for _, g := range gs {
+		if x, _, hi, _, hasHi, ok := atomIntBounds(g); ok && hasHi && hi <= n && pred(x) {
+			return true
+		}
+	}
+	return false
+}
+
+// phiLeaves enumerates the non-φ leaves of a φ web together with the φ edge through which each enters.
+type phiLeaf struct {
+	Phi *ssa.Phi
+	K   int
+	V   ssa.Value
+}
+
+func phiLeaves(v ssa.Value) (leaves []phiLeaf, direct []ssa.Value) {
+	seen := map[ssa.Value]bool{}
+	var walk func(v ssa.Value)
+	walk = func(v ssa.Value) {
+		ph, ok := v.(*ssa.Phi)
+		if !ok {
+			direct = append(direct, v)
+			return
+		}
+		if seen[v] {
+			return
+		}
+		seen[v] = true
+		for k, e := range ph.Edges {
+			if _, isPhi := e.(*ssa.Phi); isPhi {
+				walk(e)
+			} else {
+				leaves = append(leaves, phiLeaf{ph, k, e})
+			}
+		}
+	}
+	walk(v)
+	return
+}
+
+// boolCases enumerates, form-independently, the ways a boolean function can
+// return `want`: one entry per way, each the set of guard atoms that hold on
+// it.  `return true` behind guards, `return a || b`, `return a && b`, and
+// early-return chains all reduce to the same case lists.
+func boolCases(fn *ssa.Function, want bool) [][]guardInfo {
+	var out [][]guardInfo
+	var expand func(v ssa.Value, want bool, base []guardInfo, depth int)
+	expand = func(v ssa.Value, want bool, base []guardInfo, depth int) {
+		v, flip := stripNot(v)
+		if flip {
+			want = !want
+		}
+		if c, ok := v.(*ssa.Const); ok && c.Value != nil {
+			if (c.Value.String() == "true") == want {
+				out = append(out, base)
+			}
+			return
+		}
+		if ph, ok := v.(*ssa.Phi); ok && depth < 6 {
+			for k, e := range ph.Edges {
+				gs := append(append([]guardInfo{}, base...), phiEdgeGuards(fn, ph, k)...)
+				expand(e, want, gs, depth+1)
+			}
+			return
+		}
+		out = append(out, append(append([]guardInfo{}, base...), guardInfo{Cond: v, Pos: want}))
+	}
+	for _, rt := range realReturns(fn) {
+		res := retResults(rt)
+		if len(res) == 0 {
+			continue
+		}
+		expand(res[0], want, guardAtoms(fn, nil, rt), 0)
+	}
+	return out
 }
